@@ -113,9 +113,43 @@ def cases(tier, seed=0):
     # ---- extent boundaries (255/256-cell switch lives in xcube only; kept as extent-boundary cases)
     for fam, dims, sh in boundary_cases(thorough):
         yield fam, dims, sh
+    for fam, dims, sh in medium_cases():
+        yield fam, dims, sh
     if thorough:
         for fam, dims, sh in thorough_cases(seed):
             yield fam, dims, sh
+
+
+def medium_cases():
+    """Medium-size cubes (9-64 rows, category extents 5-9, row-id lists of 17+): code that only engages above a size
+    threshold (fast paths, batching, heuristics) is out of reach of the exhaustive tiny scopes.  Deterministic."""
+    x = [20261003]
+
+    def nxt(m):
+        x[0] = (x[0] * 48271) % 2147483647
+        return x[0] % m
+
+    layouts = [((9, 5),), ((17, 7), (17, 4)), ((33, 6), (33, 5), (33, 3)), ((64, 9), (64, 2)), ((40, 8), (40, 8)), ((24, 4), (24, 5), (24, 3), (24, 2))]
+    for lay in layouts:
+        for variant in range(3):
+            dims = []
+            for (n, k) in lay:
+                if variant == 0:
+                    cells = tuple(nxt(k) for _ in range(n))
+                elif variant == 1:  # one dominant category, long row-id lists for it when it is not the common value
+                    cells = tuple((0 if nxt(10) < 7 else nxt(k)) for _ in range(n))
+                else:  # sorted blocks: long runs of equal categories
+                    cells = tuple(sorted(nxt(k) for _ in range(n)))
+                common = (0, k - 1, k)[variant]  # present-and-frequent / rare / absent (extent k + 1)
+                dims.append(((n,), cells, common))
+            yield "medium", tuple(dims), None
+            yield "medium", tuple(dims), tuple(max(list(c) + [k]) + 2 for _, c, k in dims)
+    # medium multi-axis dimensions
+    for (n, cc, k) in ((12, 3, 4), (20, 5, 3)):
+        cells = tuple((0 if nxt(10) < 5 else nxt(k)) for _ in range(n * cc))
+        one = tuple(nxt(3) for _ in range(n))
+        yield "medium", (((n, cc), cells, 0), ((n,), one, 1)), None
+        yield "medium", (((n,), one, 2), ((n, cc), cells, k)), None
 
 
 def boundary_cases(thorough):
